@@ -200,6 +200,10 @@ func FaultInjection(max int) {}
 // Faults is the number of injected file-system failures on this path.
 func Faults() int { return 0 }
 
+// FaultedOn reports whether a failure was injected into a file-system call of the given kind
+// (create, write, read, readat, close, remove) on this path.
+func FaultedOn(op string) bool { return false }
+
 // MarkShared declares the memory reachable from roots (and every package-level variable) as
 // shared between goroutines from now on: under the symbolic executor any later store to it that
 // is not protected by a mutex or made through sync/atomic, sync.Pool or sync.Map is reported.
